@@ -5,7 +5,7 @@
     entities under the labelling [lbl] of its field; [no_loss s s']: no label array present in [s] is missing in [s'].
     Definitions named [old_...] model FORMER code of pybrops (repaired since) and occur only in regression witnesses.
     [val] and [lbl] are arbitrary (so duplicated labels are covered), the entity type is arbitrary. *)
-From PV Require Import Lib.Common Model.C03_LMat Proofs.C03_LMat Gen.C03_Dispatch Gen.C03_MetaReset Proofs.C03_Tables.
+From PV Require Import Lib.Common Model.C03_LMat Proofs.C03_LMat Gen.C03_Dispatch Gen.C03_MetaReset Proofs.C03_Tables Gen.C03_Kernel Proofs.C03_Kernel Proofs.C03_Session.
 Local Open Scope Z_scope.
 
 (** every class descriptor of the model is well formed (axes in range, kinds do not share array axes) *)
@@ -288,6 +288,168 @@ Theorem C03_insert_then_incorp : forall c s k o v s', drop_other c = false -> no
   pol_ins (sch c k) = pol_adj (sch c k) -> op_insert c s k o v = OK s' -> op_incorp c s k o v = OK s'.
 Proof. exact insert_then_incorp. Qed.
 Print Assumptions C03_insert_then_incorp.
+
+
+(** * The kernel expressions of the CURRENT source (Gen/C03_Kernel.v is regenerated from the pybrops files on every run by
+    harness/translate/c03_kernel.py) are the expressions of the hand model: get_axis, the metadata assignment of
+    group_<kind>, is_grouped_<kind>, the default sort keys, the masked genotyping protocols (whole pipeline), the
+    scalar-index wrap of insert/incorp.  A changed expression in the source breaks this theorem's proof (reflexivity). *)
+Theorem C03_kernel_is_model :
+  (forall axis nd, get_axis axis nd = if k_axis_bad axis (Z.of_nat nd) then None else Some (Z.to_nat (k_axis_ix axis (Z.of_nat nd)))) /\
+  (forall a g, group_meta a g = k_group_meta k_taxa_unique_unpack k_taxa_spix a g) /\
+  (forall a g, group_meta a g = k_group_meta k_vrnt_unique_unpack k_vrnt_spix a g) /\
+  (forall a, is_grouped a = k_taxa_is_grouped (some_b (m_name a)) (some_b (m_stix a)) (some_b (m_spix a)) (some_b (m_len a))) /\
+  (forall a, is_grouped a = k_vrnt_is_grouped (some_b (m_name a)) (some_b (m_stix a)) (some_b (m_spix a)) (some_b (m_len a))) /\
+  skeys (schema_of KTaxa) = k_taxa_skeys /\ skeys (schema_of KTaxa) = k_sqtaxa_skeys /\
+  skeys (schema_of KVrnt) = k_vrnt_skeys /\ skeys (schema_of KTrait) = k_trait_skeys /\
+  (forall a kept, mask_meta a kept = k_mask_meta k_mp_inrange k_mp_keep k_mp_stix a kept) /\
+  (forall a kept, mask_meta a kept = k_mask_meta k_mu_inrange k_mu_keep k_mu_stix a kept) /\
+  (forall inv s, op_genotype (GMaskedPhased inv) s =
+                 k_genotype true k_mp_mask k_mp_mask_axis k_mp_masknz (k_mask_meta k_mp_inrange k_mp_keep k_mp_stix) inv s) /\
+  (forall inv s, op_genotype (GMaskedUnphased inv) s =
+                 k_genotype false k_mu_mask k_mu_mask_axis k_mu_masknz (k_mask_meta k_mu_inrange k_mu_keep k_mu_stix) inv s) /\
+  k_mp_sliced = seq 0 (nfields (schema_of KVrnt)) /\ k_mu_sliced = seq 0 (nfields (schema_of KVrnt)) /\
+  Forall wraps [k_taxa_wrap_insert; k_taxa_wrap_incorp; k_vrnt_wrap_insert; k_vrnt_wrap_incorp; k_trait_wrap_insert; k_trait_wrap_incorp].
+Proof.
+  repeat split;
+    first [ exact k_get_axis_model | exact k_taxa_group_meta_model | exact k_vrnt_group_meta_model
+          | exact k_taxa_is_grouped_model | exact k_vrnt_is_grouped_model | exact k_mp_mask_meta_model | exact k_mu_mask_meta_model
+          | exact k_mp_genotype_model | exact k_mu_genotype_model | exact kernel_wraps ].
+Qed.
+Print Assumptions C03_kernel_is_model.
+
+(** get_axis as generated: the accepted axis numbers are exactly -ndim .. ndim-1 and the index is the number itself or the
+    number + ndim, inside 0 .. ndim-1; the generic dispatch of every class goes through these two expressions *)
+Theorem C03_kernel_get_axis_range : forall axis nd, 0 < nd ->
+  (k_axis_bad axis nd = false <-> - nd <= axis < nd) /\
+  (k_axis_bad axis nd = false -> 0 <= k_axis_ix axis nd < nd /\ k_axis_ix axis nd = if axis <? 0 then axis + nd else axis).
+Proof. exact kernel_get_axis_range. Qed.
+Print Assumptions C03_kernel_get_axis_range.
+Theorem C03_kernel_dispatch : forall c axis,
+  dispatch c (Generic axis) =
+  if k_axis_bad axis (Z.of_nat (ndim c)) then None else find_kind (axs c) (Z.to_nat (k_axis_ix axis (Z.of_nat (ndim c)))) O.
+Proof. exact kernel_dispatch. Qed.
+Print Assumptions C03_kernel_dispatch.
+
+(** numpy.unique on a sorted group-label list with the generated stop-index expressions of group_taxa / group_vrnt *)
+Theorem C03_kernel_unique_partition : forall l, Sorted.StronglySorted Z.le l ->
+  let '(nm, ix, ln) := np_unique l in
+  partition_ok l nm ix (map2 k_taxa_spix ix ln) ln /\ partition_ok l nm ix (map2 k_vrnt_spix ix ln) ln.
+Proof. exact kernel_unique_partition. Qed.
+Print Assumptions C03_kernel_unique_partition.
+(** grouped = all four metadata arrays present (both axis kinds) *)
+Theorem C03_kernel_is_grouped_all4 : forall n s p l,
+  (k_taxa_is_grouped n s p l = true <-> n = true /\ s = true /\ p = true /\ l = true) /\
+  (k_vrnt_is_grouped n s p l = true <-> n = true /\ s = true /\ p = true /\ l = true).
+Proof. exact kernel_is_grouped_all4. Qed.
+Print Assumptions C03_kernel_is_grouped_all4.
+(** the group-label array is the LAST default key of lexsort_<kind>, i.e. numpy.lexsort's primary key: only then does
+    group_<kind> (sort with the default keys, then numpy.unique on the group labels) see a sorted group array *)
+Theorem C03_kernel_group_key_primary :
+  grp (schema_of KTaxa) = Some (last k_taxa_skeys O) /\ grp (schema_of KTaxa) = Some (last k_sqtaxa_skeys O) /\
+  grp (schema_of KVrnt) = Some (last k_vrnt_skeys O).
+Proof. exact kernel_group_key_primary. Qed.
+Print Assumptions C03_kernel_group_key_primary.
+
+(** label arguments of adjoin/insert/append/incorp given a matrix-typed `values`: the keyword argument if present, else
+    the array of the SAME field of the matrix (the 12 generated tables are the identity), which is the model's [eff_lab] *)
+Theorem C03_kernel_label_precedence : forall c k v j,
+  Forall (fun p => eff_lab c k v j = k_eff p c k v j)
+    [k_taxa_prec_adjoin; k_taxa_prec_insert; k_taxa_prec_append; k_taxa_prec_incorp;
+     k_vrnt_prec_adjoin; k_vrnt_prec_insert; k_vrnt_prec_append; k_vrnt_prec_incorp;
+     k_trait_prec_adjoin; k_trait_prec_insert; k_trait_prec_append; k_trait_prec_incorp].
+Proof. exact kernel_eff_lab. Qed.
+Print Assumptions C03_kernel_label_precedence.
+
+(** insert/incorp of the source = wrap a scalar index into a one-element list (generated), then numpy.insert: equal to the
+    model's operation on the unwrapped argument, for every class, axis, index and operand *)
+Theorem C03_kernel_insert_scalar : forall c s k o v,
+  op_insert c s k (k_taxa_wrap_insert o) v = op_insert c s k o v /\ op_insert c s k (k_vrnt_wrap_insert o) v = op_insert c s k o v /\
+  op_insert c s k (k_trait_wrap_insert o) v = op_insert c s k o v /\ op_incorp c s k (k_taxa_wrap_incorp o) v = op_incorp c s k o v /\
+  op_incorp c s k (k_vrnt_wrap_incorp o) v = op_incorp c s k o v /\ op_incorp c s k (k_trait_wrap_incorp o) v = op_incorp c s k o v.
+Proof. exact kernel_insert_scalar. Qed.
+Print Assumptions C03_kernel_insert_scalar.
+
+(** the masked genotyping protocols, stated about the generated membership test `(masknz >= stix) & (masknz < spix)`,
+    `keep = len > 0` and `stix = spix - len` (both protocol classes): the rebuilt metadata are a true partition ... *)
+Theorem C03_kernel_mask_meta_partition : forall (a : axst) (labs' : list (option larr)) (l : larr) nm ix sp ln (m : list bool) g,
+  m_name a = Some nm -> m_stix a = Some ix -> m_spix a = Some sp -> m_len a = Some ln ->
+  partition_ok (unsome l) nm ix sp ln -> length m = length l -> nth g labs' None = Some (pick (mask_positions m) l) ->
+  grouped_ok (k_mask_meta k_mp_inrange k_mp_keep k_mp_stix (with_labs a labs') (mask_positions m)) g /\
+  grouped_ok (k_mask_meta k_mu_inrange k_mu_keep k_mu_stix (with_labs a labs') (mask_positions m)) g.
+Proof. exact kernel_mask_meta_partition. Qed.
+Print Assumptions C03_kernel_mask_meta_partition.
+(** ... and the whole generated pipeline (inversion, kept positions from the local mask, slicing axis, metadata rebuild)
+    keeps "grouped => true partition" on both labelled axes of its result *)
+Theorem C03_kernel_genotype_meta_inv : forall inv s s', length (axes s) = 3%nat ->
+  (forall l, nth 0 (labs (ax_of s 2)) None = Some l -> length l = nth 2 (shape s) O) ->
+  meta_ok cDensePhasedGenotypeMatrix s ->
+  (k_genotype true k_mp_mask k_mp_mask_axis k_mp_masknz (k_mask_meta k_mp_inrange k_mp_keep k_mp_stix) inv s = OK s' ->
+     meta_ok cDensePhasedGenotypeMatrix s') /\
+  (k_genotype false k_mu_mask k_mu_mask_axis k_mu_masknz (k_mask_meta k_mu_inrange k_mu_keep k_mu_stix) inv s = OK s' ->
+     meta_ok cDenseGenotypeMatrix s').
+Proof. exact kernel_genotype_meta_inv. Qed.
+Print Assumptions C03_kernel_genotype_meta_inv.
+
+(** square-taxa adjoin_taxa / append_taxa: the generated extent and slice bounds put the old block on [0, m) and the new
+    block on [m, m + v) of each square axis (contiguous, disjoint, exhaustive); the model's block-diagonal layout has the
+    generated extents *)
+Theorem C03_kernel_square_blocks :
+  blocks_ok k_sq_adjoin_extent k_sq_adjoin_self_lo k_sq_adjoin_self_hi k_sq_adjoin_vals_lo k_sq_adjoin_vals_hi /\
+  blocks_ok k_sq_append_extent k_sq_append_self_lo k_sq_append_self_hi k_sq_append_vals_lo k_sq_append_vals_hi.
+Proof. exact kernel_square_blocks. Qed.
+Print Assumptions C03_kernel_square_blocks.
+Theorem C03_kernel_square_extent : forall n0 n1 rest t k0 k1 vrest v,
+  snd (blockdiag (n0 :: n1 :: rest) t (k0 :: k1 :: vrest) v) =
+    Z.to_nat (k_sq_adjoin_extent (Z.of_nat n0) (Z.of_nat k0)) :: Z.to_nat (k_sq_adjoin_extent (Z.of_nat n1) (Z.of_nat k1)) :: rest /\
+  snd (blockdiag (n0 :: n1 :: rest) t (k0 :: k1 :: vrest) v) =
+    Z.to_nat (k_sq_append_extent (Z.of_nat n0) (Z.of_nat k0)) :: Z.to_nat (k_sq_append_extent (Z.of_nat n1) (Z.of_nat k1)) :: rest.
+Proof. exact k_sq_extent_model. Qed.
+Print Assumptions C03_kernel_square_extent.
+
+(** group_<kind> of the source (generated unpacking of numpy.unique and stop-index expression) applied to an axis whose
+    group labels are sorted yields metadata that are a true contiguous partition of those labels *)
+Theorem C03_kernel_group_meta_partition : forall a g l, nth g (labs a) None = Some l -> Sorted.StronglySorted Z.le (unsome l) ->
+  grouped_ok (k_group_meta k_taxa_unique_unpack k_taxa_spix a g) g /\ grouped_ok (k_group_meta k_vrnt_unique_unpack k_vrnt_spix a g) g.
+Proof. exact kernel_group_meta_partition. Qed.
+Print Assumptions C03_kernel_group_meta_partition.
+
+(** sessions: running h1 ++ h2 is running h1 and then h2 from the class and state h1 reached - the outcome of every later
+    call is a function of the state at that call, never of how the state was obtained (no hidden history) ... *)
+Theorem C03_run_app : forall h1 c s h2,
+  run c s (h1 ++ h2) =
+  (if snd (run c s h1) then (fst (run c s h1), true)
+   else let cs := last_state c s (fst (run c s h1)) in
+        (fst (run c s h1) ++ fst (run (fst cs) (snd cs) h2), snd (run (fst cs) (snd cs) h2))).
+Proof. exact run_app. Qed.
+Print Assumptions C03_run_app.
+(** ... so two sessions that reach the same state continue identically *)
+Theorem C03_run_state_only : forall c1 s1 h1 c2 s2 h2 h,
+  snd (run c1 s1 h1) = false -> snd (run c2 s2 h2) = false ->
+  last_state c1 s1 (fst (run c1 s1 h1)) = last_state c2 s2 (fst (run c2 s2 h2)) ->
+  skipn (length (fst (run c1 s1 h1))) (fst (run c1 s1 (h1 ++ h))) = skipn (length (fst (run c2 s2 h2))) (fst (run c2 s2 (h2 ++ h)))
+  /\ snd (run c1 s1 (h1 ++ h)) = snd (run c2 s2 (h2 ++ h)).
+Proof. exact run_state_only. Qed.
+Print Assumptions C03_run_state_only.
+(** generic is_grouped(axis) answers what the axis-specific is_grouped_<kind> of the dispatched kind answers *)
+Theorem C03_is_grouped_generic : forall c s axis k, has_group c = true -> dispatch c (Generic axis) = Some k ->
+  is_grouped_gen c s axis =
+  match kind_of c k with KTaxa | KVrnt => Some (is_grouped (ax_of s k)) | KPhase => Some false | KTrait => None end.
+Proof. exact is_grouped_gen_specific. Qed.
+Print Assumptions C03_is_grouped_generic.
+
+Definition w0_s : st := mkst [2; 1]%nat (T2 [[1]; [2]]) [mkax [Some (L [3; 4]); Some (L [1; 1])] None None None None].
+(** non-vacuity of the kernel theorems' hypotheses: axis -1 of a 3-dimensional array is accepted and is index 2; a sorted
+    group-label list with two groups *)
+Example C03_kernel_hyps_satisfiable :
+  k_axis_bad (-1) 3 = false /\ k_axis_ix (-1) 3 = 2 /\ k_axis_bad 3 3 = true /\ k_axis_bad (-4) 3 = true /\
+  Sorted.StronglySorted Z.le [1; 1; 2] /\ np_unique [1; 1; 2] = ([1; 2], [0; 2], [2; 1]) /\
+  map2 k_taxa_spix [0; 2] [2; 1] = [2; 3] /\
+  (* two different sessions reaching the same state *)
+  snd (run cDenseTaxaMatrix w0_s [HOp (Specific 0) Ungroup]) = false /\
+  last_state cDenseTaxaMatrix w0_s (fst (run cDenseTaxaMatrix w0_s [HOp (Specific 0) Ungroup])) =
+  last_state cDenseTaxaMatrix w0_s (fst (run cDenseTaxaMatrix w0_s [HOp (Generic (-2)) Ungroup; HOp (Specific 0) Ungroup])).
+Proof. repeat split; repeat constructor; cbn; lia. Qed.
 
 (** non-vacuity: the hypotheses of the refinement theorems are met by a concrete labelled 2 x 3 taxa x variant matrix
     and a concrete 2 x 2 operand (first two conjuncts of the witness above) *)
